@@ -1,10 +1,12 @@
 """C01 — the returned bound is backed by a complete, checkable dual certificate.
 
-Proofs: coq/Props/C01.v (layout of the dual vector, identity under the solver assumption of Spec/KKT.v, weak
-duality, the refuted asymmetric case F-C01a and the guarded partial statement).
+Proofs: coq/Props/C01.v (layout of the dual vector incl. the entry multipliers of each LMI, identity under the solver
+assumption of Spec/KKT.v for ALL LMIs, weak duality, regression theorem for the formula used before the repair of F-C01a).
 
 Tie (H), stream `scripted-duals`: seeded random declared models (0-30 scalar constraints, 0-4 LMIs of size 1-4,
-any interleaving that PEP._solve_with_wrapper can produce, LMIs symmetric as written and deliberately asymmetric)
+any interleaving that PEP._solve_with_wrapper can produce, LMIs symmetric as written and deliberately asymmetric, class LMIs of
+SymmetricLinearOperator / SmoothStronglyConvexQuadraticFunction / SkewSymmetricLinearOperator, the very same Constraint /
+PSDMatrix object registered several times)
 are built through the real classes; the REAL send order, cvxpy emission, _recover_dual_values,
 assign_dual_values, _eval_points_and_function_values and check_feasibility run with a scripted `solve` that
 injects one synthetic dyadic dual per cvxpy constraint, tagged by its position (cvxpy's own save_dual_value), and a
@@ -33,6 +35,10 @@ TRUSTED = [
     "numpy object-array semantics of np.dot / np.sum / elementwise * over Points and Expressions (order of the operator "
     "calls established by tracing, then pinned by the exact comparison of the final dictionary, keys in order)",
     "cvxpy: Variable(symmetric=True), >>, <=, ==, Problem.constraints order, Constraint.dual_value / save_dual_value",
+    "object identity in the tracked list is modelled by `ids` (Model.Cvxpy.by_object: an object sent several times shows the "
+    "values of its last occurrence); C01_identity is stated for models whose objects are each sent once (NoDup ids); for an "
+    "object sent twice the identity additionally needs the solver to split the multiplier evenly between the two identical rows "
+    "(not implied by stationarity; observed with SCS)",
     "PSD of multipliers is taken as 'finite sum of rank-one v v^T' (real vectors), PSD of primal matrices as "
     "'symmetric with non-negative quadratic form'; <S,A> >= 0 is proved for that pair (Proofs/PSDLemmas.v); the "
     "spectral theorem (quadratic-form PSD => rank-one sum) is not needed and not proved",
@@ -46,8 +52,8 @@ ASSUMES = [
 ]
 
 IMPORTS = ["From PV Require Import Model.Sent Model.Cvxpy Model.Cert."]
-RUN = "fun '(np, obj, tracked, temp, G, F, M) => run_case np obj tracked temp G F M"
-INPUT_TYPE = "(nat * edict * sent * list dval * list (list Q) * list Q * list (list (list Q)))"
+RUN = "fun '(np, obj, tracked, ids, temp, G, F, M) => run_case np obj tracked ids temp G F M"
+INPUT_TYPE = "(nat * edict * sent * list nat * list dval * list (list Q) * list Q * list (list (list Q)))"
 
 
 # ------------------------------------------------------------------------------------------ one scripted case
@@ -57,7 +63,6 @@ def run_scripted(spec, heuristic=None, mode="dual", tol=0.25):
     from PEPit import Point, Expression
     pep, P, X = L.build_pep(spec)
     W = L.make_wrapper_class()
-    pts = np.array(spec["pts"], dtype=float)
 
     def script(w, k):
         duals = L.synthetic_duals(w.prob, spec["dual_seed"], k)
@@ -67,12 +72,18 @@ def run_scripted(spec, heuristic=None, mode="dual", tol=0.25):
         for c, v in zip(cons, duals):
             c.save_dual_value(v)
         scale = 1.0 if k == 0 else 0.5
+        pts = L.full_pts(spec, w.G.shape[0])
         w.optimal_G = scale * (pts.T @ pts)
-        w.optimal_F = np.array(spec["fvals"], dtype=float) / 4.0
+        w.optimal_F = L.full_fvals(spec, w.F.shape[0])
         assert w.optimal_F.shape == w.F.shape
         return dict(wc_value=w.optimal_F[pep.objective.counter], duals=duals, constraints=cons,
                     objective=w.prob.objective)
 
+    if spec.get("resolve"):
+        # the model is solved a first time; what is compared is the SECOND solve of the same PEP object (fresh wrapper)
+        w1 = W(script, verbose=0)
+        pep.wrapper_name, pep.wrapper = "cvxpy", w1
+        L.quiet(pep._solve_with_wrapper, w1, verbose=0, return_primal_or_dual=mode)
     wrapper = W(script, verbose=0)
     pep.wrapper_name = "cvxpy"
     pep.wrapper = wrapper
@@ -95,17 +106,36 @@ def run_scripted(spec, heuristic=None, mode="dual", tol=0.25):
                   and len(ps) == len(pep._list_of_psd_sent_to_wrapper)
                   and all(a is b for a, b in zip(ps, pep._list_of_psd_sent_to_wrapper)))
     impl = [rows,
-            [L.dump_dval(o.eval_dual()) for o in tracked],
+            [L.dump_exposed(o) for o in tracked],
             L.dump_dval(pep.residual),
             T.dump_edict(rec.last, pid, xid),
             Q(float(ret))]
     obj = T.dump_edict(pep.objective.decomposition_dict, pid, xid)
-    coq_in = "(%s, %s, %s, %s, %s, %s, %s)" % (
-        coq_nat(Point.counter), L.coq_edict_from_dump(obj), L.coq_sent(items),
+    ids = L.object_ids(wrapper)
+    coq_in = "(%s, %s, %s, %s, %s, %s, %s, %s)" % (
+        coq_nat(Point.counter), L.coq_edict_from_dump(obj), L.coq_sent(items), coq_list([coq_nat(k) for k in ids]),
         coq_list([L.coq_dval(v) for v in first["duals"]]),
         L.coq_qmat(G), coq_list([coq_q(float(x)) for x in F]), coq_list([L.coq_qmat(M) for M in Ms]))
-    return dict(impl=impl, coq=coq_in, items=items, same_lists=same_lists, wrapper=wrapper, pep=pep,
+    return dict(impl=impl, coq=coq_in, items=items, same_lists=same_lists, n_duplicates=len(ids) - len(set(ids)), wrapper=wrapper, pep=pep,
                 n_rows=len(rows), ret=float(ret), wc=float(first["wc_value"]))
+
+
+def fixed_specs():
+    """always-run cases: the same Constraint object twice in the PEP / in the PEP and in a function / in two functions, the
+    same PSDMatrix object twice, an asymmetric LMI next to them, class LMIs that are not symmetric as written"""
+    e1 = [["G", 0, 0, 8], ["C", -8]]
+    e2 = [["F", 0, 8], ["G", 0, 1, -4]]
+    asym = dict(kind="asym", rows=[[[["G", 0, 0, 8]], [["F", 0, 8]]], [[["F", 1, 8], ["C", 8]], ["num", 8]]])
+    base = dict(np=2, nf=2, metrics=[[["F", 0, 8]]], pts=[[1, -1], [2, 1]], fvals=[3, -2, 5], dual_seed=12345, classes=[])
+    out = []
+    for dups, funcs in (([["cons", 0, 0, 0]], []), ([["cons", 0, 0, 1]], [dict(cons=[], psd=[])]),
+                        ([["cons", 1, 0, 2], ["cons", 0, 1, 0]], [dict(cons=[dict(e=e2, how="eq")], psd=[]), dict(cons=[], psd=[])]),
+                        ([["psd", 0]], []), ([["psd", 0], ["cons", 0, 0, 0]], [])):
+        out.append(dict(base, pep=dict(cons=[dict(e=e1, how="le"), dict(e=e2, how="ge")], psd=[asym]), funcs=funcs, dups=dups))
+    for cls in ("SymmetricLinearOperator", "SmoothStronglyConvexQuadraticFunction", "SkewSymmetricLinearOperator"):
+        out.append(dict(base, pep=dict(cons=[dict(e=e1, how="le")], psd=[]), funcs=[], dups=[],
+                        classes=[dict(cls=cls, L=2.0, mu=0.5, pts=[0, 1])]))
+    return out
 
 
 def shape_of(items):
@@ -115,16 +145,16 @@ def shape_of(items):
 def correspondence_scripted(tier, seed, corpus):
     rng = random.Random(seed * 104729 + 101)
     n = 260 if tier == "quick" else 2500
-    specs = [c["spec"] for c in (corpus or []) if "spec" in c]
+    specs = [c["spec"] for c in (corpus or []) if "spec" in c] + fixed_specs()
     while len(specs) < n:
         specs.append(L.gen_spec(rng))
     cases, meta, problems = [], [], []
-    hist = dict(scalars={}, lmis={}, lmi_sizes={}, heuristic={}, interleavings=0, asymmetric_models=0)
+    hist = dict(scalars={}, lmis={}, lmi_sizes={}, heuristic={}, class_lmi={}, interleavings=0, asymmetric_models=0)
     distinct = set()
     for idx, spec in enumerate(specs):
         # every dimension-reduction configuration must expose the certificate of the FIRST solve
         heur = spec.get("heuristic", {3: "trace", 4: "logdet2"}.get(idx % 5))
-        spec = dict(spec, heuristic=heur)
+        spec = dict(spec, heuristic=heur, resolve=spec.get("resolve", idx % 6 == 5))
         try:
             r = run_scripted(spec, heuristic=heur)
         except Exception as e:      # the real post-solve code must run on every declared model
@@ -143,6 +173,13 @@ def correspondence_scripted(tier, seed, corpus):
         for it in items:
             if it[0] == "LMI":
                 hist["lmi_sizes"][len(it[1])] = hist["lmi_sizes"].get(len(it[1]), 0) + 1
+        if spec["resolve"]:
+            hist["second_solve_of_the_same_pep"] = hist.get("second_solve_of_the_same_pep", 0) + 1
+        if r["n_duplicates"]:
+            hist["models_with_an_object_sent_twice"] = hist.get("models_with_an_object_sent_twice", 0) + 1
+        if spec.get("classes"):
+            k = spec["classes"][0]["cls"]
+            hist["class_lmi"][k] = hist["class_lmi"].get(k, 0) + 1
         sh = shape_of(items)
         if "Ls" in sh.replace("L1", "L").replace("L2", "L").replace("L3", "L").replace("L4", "L"):
             hist["interleavings"] += 1
@@ -195,6 +232,8 @@ def check_solved(spec):
         bad.append("negative-multiplier-on-an-inequality")
     if m["min_eigenvalue"] < -tol:
         bad.append("multiplier-matrix-not-psd")
+    if m["dual_matrix_vs_sym_entries"] > tol:
+        bad.append("dual-matrix-is-not-the-symmetric-part-of-the-entry-multipliers")
     m["tolerance"] = tol
     return m, bad
 
@@ -202,9 +241,9 @@ def check_solved(spec):
 def correspondence_scs(tier, seed):
     rng = random.Random(seed * 7717 + 3)
     n = 15 if tier == "quick" else 120
-    specs = L.solvable_specs(rng, n)
+    specs = [L.ASYM_TRIGGER, L.SYMLIN_TIGHT, L.QUAD_GD] + L.solvable_specs(rng, n - 3)
     problems, samples, kkt = [], [], []
-    hist = dict(lmi={}, steps={}, asymmetric=0)
+    hist = dict(lmi={}, family={}, steps={}, asymmetric=0)
     nontrivial = 0
     for spec in specs:
         try:
@@ -216,6 +255,7 @@ def correspondence_scs(tier, seed):
         if m["solver_status"] != ["optimal"]:
             hist["solver_not_converged"] = hist.get("solver_not_converged", 0) + 1
         hist["lmi"][spec["lmi"]] = hist["lmi"].get(spec["lmi"], 0) + 1
+        hist["family"][spec["family"]] = hist["family"].get(spec["family"], 0) + 1
         hist["steps"][spec["n"]] = hist["steps"].get(spec["n"], 0) + 1
         hist["asymmetric"] += int(m["asymmetric_lmi"])
         if m["n_constraints"] >= 5:
@@ -266,34 +306,12 @@ def search(tier, seed):
 
 
 def is_known(payload, known):
-    """F-C01a: the model contains an LMI that is not symmetric as written, the solver's raw output satisfies
-    stationarity (entry duals included), and what fails is the identity / the returned constant."""
-    for k in known:
-        if k["id"] != "F-C01a":
-            continue
-        m = payload.get("measured") or {}
-        if payload.get("kind") in IDENTITY_KINDS and m.get("asymmetric_lmi") is True \
-                and payload.get("solved_spec", {}).get("lmi") == "asym" \
-                and m.get("kkt_residual", 1.0) <= 1e-4 and m.get("min_eigenvalue", -1.0) >= -1e-4:
-            return k["id"]
+    """no open finding is listed for C01 (F-C01a was repaired in PEPit, commit bd99691)"""
     return None
 
 
 def known_findings(known):
-    out = []
-    for k in known:
-        if k["id"] == "F-C01a":
-            spec = k["trigger"]["solved_spec"]
-            try:
-                m, kinds = check_solved(spec)
-                still = "dual-value-below-primal-value" in kinds and m["asymmetric_lmi"]
-                what = ("LMI not symmetric as written: entry multipliers are discarded, solve() returned %.4f below the "
-                        "primal value %.4f (identity residual %.3g, solver stationarity residual %.1e)"
-                        % (m["returned"], m["primal"], m["identity_residual"], m["kkt_residual"]))
-            except Exception as e:
-                still, what = False, "replay raised %r" % (e,)
-            out.append((k["id"], still, what))
-    return out
+    return []
 
 
 def replay(payload):
